@@ -1,7 +1,10 @@
 (* C18 — counters saturate at their ceiling; they never wrap around.
    Linear count-min part here; heavy-hitter and log-counter parts are the C18_hh_* / C18_log_* theorems. *)
 From Coq Require Import ZArith List.
+From Coq Require Import Floats.PrimFloat.
 From Sketchnu Require Import Machine CmsLinear CmsLinearProofs.
+From Coq Require Import Reals.
+From Sketchnu Require CmsLog CmsLogProofs HH HHProofs LogLaw Consts.
 Import ListNotations.
 Open Scope Z_scope.
 
@@ -44,3 +47,121 @@ Example C18_lin_nonvacuous :
   let s := eval 1 1 b (HAdd (HAdd HEmpty [1] (cap - 1)) [2] 1) in
   query 1 b s [1] = cap /\ query 1 b (cls_add 1 b s [3] 7) [1] = cap /\ query 1 b (merge s s) [2] = cap.
 Proof. vm_compute. repeat split; reflexivity. Qed.
+
+(* ---------------- log8 / log16 ---------------- *)
+Import CmsLog.
+Import CmsLogProofs.
+
+(* _log_counter returns at once at the ceiling: no increment, no draw *)
+Theorem C18_log_counter_ceiling : forall nr umax powneg c rs v, umax <= c -> log_counter nr umax powneg c rs v = (c, rs).
+Proof. exact CmsLogProofs.C18_log_counter_ceiling. Qed.
+Print Assumptions C18_log_counter_ceiling.
+
+Theorem C18_log_range_add : forall depth bucket nr umax powneg castc,
+  0 <= umax -> (forall x, 0 <= x <= umax -> castc x = x) ->
+  forall (s : lsk) (k : key) (v : Z), lsk_ok umax s -> 0 <= v ->
+  lsk_ok umax (lcls_add depth bucket nr umax powneg castc s k v).
+Proof. exact CmsLogProofs.C18_log_range_add. Qed.
+Print Assumptions C18_log_range_add.
+
+Theorem C18_log_sticky_add : forall depth bucket nr umax powneg castc,
+  0 <= umax -> (forall x, 0 <= x <= umax -> castc x = x) ->
+  forall (s : lsk) (k j : key) (v : Z), lsk_ok umax s -> 0 <= v ->
+  lquery depth bucket umax s k = umax ->
+  lquery depth bucket umax (lcls_add depth bucket nr umax powneg castc s j v) k = umax.
+Proof. exact CmsLogProofs.C18_log_sticky_add. Qed.
+Print Assumptions C18_log_sticky_add.
+
+Theorem C18_log_mono_add : forall depth bucket nr umax powneg castc,
+  0 <= umax -> (forall x, 0 <= x <= umax -> castc x = x) ->
+  forall (s : lsk) (k : key) (v : Z) (j : key), lsk_ok umax s -> 0 <= v ->
+  lquery depth bucket umax s j <= lquery depth bucket umax (lcls_add depth bucket nr umax powneg castc s k v) j.
+Proof. exact CmsLogProofs.C18_log_mono_add. Qed.
+Print Assumptions C18_log_mono_add.
+
+(* merges: for a configuration whose merge rule never goes below either input (merge_ge_ok, established per
+   configuration by the reflected grid check C09_log_grid on the real tables) *)
+Theorem C18_log_mono_merge : forall depth bucket nr umax max_count decode castc (a b : lsk) (k : key),
+  merge_ge_ok nr umax max_count decode castc -> lsk_ok umax a -> lsk_ok umax b ->
+  lquery depth bucket umax a k <= lquery depth bucket umax (merge_log nr umax max_count decode castc a b) k /\
+  lquery depth bucket umax b k <= lquery depth bucket umax (merge_log nr umax max_count decode castc a b) k.
+Proof. exact CmsLogProofs.C18_log_mono_merge. Qed.
+Print Assumptions C18_log_mono_merge.
+
+Theorem C18_log_sticky_merge : forall depth bucket nr umax max_count decode castc (a b : lsk) (k : key),
+  merge_ge_ok nr umax max_count decode castc -> lsk_ok umax a -> lsk_ok umax b ->
+  lquery depth bucket umax a k = umax \/ lquery depth bucket umax b k = umax ->
+  lquery depth bucket umax (merge_log nr umax max_count decode castc a b) k = umax.
+Proof. exact CmsLogProofs.C18_log_sticky_merge. Qed.
+Print Assumptions C18_log_sticky_merge.
+
+Theorem C18_log_grid_gives_ge : forall nr umax max_count decode castc,
+  merge_grid_b nr umax max_count decode castc = true -> merge_ge_ok nr umax max_count decode castc.
+Proof. exact CmsLogProofs.merge_grid_ge_ok. Qed.
+Print Assumptions C18_log_grid_gives_ge.
+
+(* ---------------- heavy hitters ---------------- *)
+Theorem C18_hh_ceiling : Consts.hh_cap = 2^32 - 1.
+Proof. reflexivity. Qed.
+Print Assumptions C18_hh_ceiling.
+
+Theorem C18_hh_range : forall (width depth max_key_len : nat) (bucket : nat -> key -> nat) (default_thr : Z -> Z),
+  (forall r k, (bucket r k < width)%nat) -> (max_key_len <= 255)%nat ->
+  forall (h : HH.hist) (r c : nat), HH.wf h ->
+  0 <= HH.cnt (HH.tab (HH.eval width depth max_key_len bucket default_thr h) r c) <= Consts.hh_cap.
+Proof. exact HHProofs.hh_range. Qed.
+Print Assumptions C18_hh_range.
+
+(* a key that fills its cell alone has count min(true count, 2^32-1) ... *)
+Theorem C18_hh_alone : forall (width depth max_key_len : nat) (bucket : nat -> key -> nat) (default_thr : Z -> Z),
+  (forall r k, (bucket r k < width)%nat) -> (max_key_len <= 255)%nat ->
+  forall (h : HH.hist) (r : nat) (x : list Z), HH.wf h -> (r < depth)%nat -> (length x <= max_key_len)%nat ->
+  HHProofs.alone max_key_len bucket h r x ->
+  let cl := HH.tab (HH.eval width depth max_key_len bucket default_thr h) r (bucket r x) in
+  HH.cnt cl = Z.min (HH.truth max_key_len h x) Consts.hh_cap /\ (0 < HH.cnt cl -> HH.stored cl = x).
+Proof. exact HHProofs.hh_alone. Qed.
+Print Assumptions C18_hh_alone.
+
+(* ... and it only grows under further adds and merges *)
+Theorem C18_hh_alone_mono_add : forall (width depth max_key_len : nat) (bucket : nat -> key -> nat) (default_thr : Z -> Z),
+  (forall r k, (bucket r k < width)%nat) -> (max_key_len <= 255)%nat ->
+  forall (h : HH.hist) (k : key) (v : Z) (r : nat) (x : list Z),
+  HH.wf (HH.HAdd h k v) -> (r < depth)%nat -> (length x <= max_key_len)%nat ->
+  HHProofs.alone max_key_len bucket (HH.HAdd h k v) r x ->
+  HH.cnt (HH.tab (HH.eval width depth max_key_len bucket default_thr h) r (bucket r x)) <=
+  HH.cnt (HH.tab (HH.eval width depth max_key_len bucket default_thr (HH.HAdd h k v)) r (bucket r x)).
+Proof. exact HHProofs.hh_alone_mono_add. Qed.
+Print Assumptions C18_hh_alone_mono_add.
+
+Theorem C18_hh_alone_mono_merge : forall (width depth max_key_len : nat) (bucket : nat -> key -> nat) (default_thr : Z -> Z),
+  (forall r k, (bucket r k < width)%nat) -> (max_key_len <= 255)%nat ->
+  forall (h1 h2 : HH.hist) (r : nat) (x : list Z),
+  HH.wf (HH.HMerge h1 h2) -> (r < depth)%nat -> (length x <= max_key_len)%nat ->
+  HHProofs.alone max_key_len bucket (HH.HMerge h1 h2) r x ->
+  HH.cnt (HH.tab (HH.eval width depth max_key_len bucket default_thr h1) r (bucket r x)) <=
+  HH.cnt (HH.tab (HH.eval width depth max_key_len bucket default_thr (HH.HMerge h1 h2)) r (bucket r x)).
+Proof. exact HHProofs.hh_alone_mono_merge. Qed.
+Print Assumptions C18_hh_alone_mono_merge.
+
+(* ---------------- the base equation (over the reals) ----------------
+   _func(b) = b^K - M*b + (M-1) with K = umax - num_reserved, M = max_count - num_reserved: a root b > 1 is
+   exactly a base whose maximum counter decodes to max_count; the repaired _funcprime is its derivative;
+   for K = 1 there is no root (such configurations must be rejected). *)
+Theorem C18_base_equation : forall (b M nr : R) (K : nat), (1 < b)%R -> (1 <= K)%nat ->
+  (LogLaw.func M K b = 0 <-> nr + (b ^ K - 1) / (b - 1) = nr + M)%R.
+Proof. exact LogLaw.base_equation. Qed.
+Print Assumptions C18_base_equation.
+
+Theorem C18_root_is_ceiling : forall (b : R) (nr umax max_count : Z), (1 < b)%R -> nr < umax ->
+  (LogLaw.func (IZR max_count - IZR nr) (Z.to_nat (umax - nr)) b = 0 <-> LogLaw.val b nr umax = IZR max_count)%R.
+Proof. exact LogLaw.root_is_ceiling. Qed.
+Print Assumptions C18_root_is_ceiling.
+
+Theorem C18_funcprime_is_derivative : forall (M : R) (K : nat) (b : R),
+  derivable_pt_lim (LogLaw.func M K) b (LogLaw.funcprime M K b).
+Proof. exact LogLaw.funcprime_is_derivative. Qed.
+Print Assumptions C18_funcprime_is_derivative.
+
+Theorem C18_K1_unsolvable : forall M b : R, (1 < b)%R -> M <> 1%R -> LogLaw.func M 1 b <> 0%R.
+Proof. exact LogLaw.K1_unsolvable. Qed.
+Print Assumptions C18_K1_unsolvable.
